@@ -7,20 +7,21 @@ import Mathlib.Data.List.Basic
 namespace QM.Props.C12
 open QM
 
-/-- `register_converter` / `__enter__` -/
-def push (stack : List Nat) (c : Nat) : List Nat := stack ++ [c]
+/-- `register_converter` / `__enter__`: the model's `stackPush` (what the driver
+executes against the real `Money` class) -/
+abbrev push := stackPush
 
 /-- removing the most recently registered converter succeeds and undoes its
 registration -/
 theorem remove_top (stack : List Nat) (c : Nat) :
     stackRemove (push stack c) c = (stack, .ok ()) := by
-  simp [stackRemove, push]
+  simp [stackRemove, push, stackPush]
 
 /-- a converter other than the most recent one cannot be unregistered: the
 attempt raises and changes nothing -/
 theorem remove_non_top_rejected (stack : List Nat) (top c : Nat) (h : top ≠ c) :
     stackRemove (push stack top) c = (push stack top, .error .ValueError) := by
-  simp [stackRemove, push, h]
+  simp [stackRemove, push, stackPush, h]
 
 /-- nothing registered: IndexError, nothing changes -/
 theorem remove_from_empty : stackRemove [] c = ([], .error .IndexError) := by
@@ -28,7 +29,7 @@ theorem remove_from_empty : stackRemove [] c = ([], .error .IndexError) := by
 
 /-- conversions consult the most recently registered converter still active -/
 theorem top_is_consulted (stack : List Nat) (c : Nat) :
-    (push stack c).reverse.head? = some c := by simp [push]
+    (push stack c).reverse.head? = some c := by simp [push, stackPush]
 
 /-- programs over the stack: converts (no effect on the stack), and
 `with c: body` blocks whose body ends normally or by an exception at any point -/
@@ -78,19 +79,26 @@ theorem with_blocks_restore_stack (p : Prog) (s : List Nat) : (run p s).1 = s :=
       simp [remove_top]
 
 /-- generic (non-money) types: registration is idempotent and removal restores
-the previous list -/
-def registerGeneric (l : List Nat) (c : Nat) : List Nat := if c ∈ l then l else l ++ [c]
-
+the previous list (`registerGeneric` / `removeGeneric` are the model functions
+the driver executes against `register_converter` / `remove_converter`) -/
 theorem register_twice_no_effect (l : List Nat) (c : Nat) :
     registerGeneric (registerGeneric l c) c = registerGeneric l c := by
   unfold registerGeneric
+  simp only [List.contains_eq_mem, decide_eq_true_eq]
   by_cases h : c ∈ l <;> simp [h]
 
 theorem remove_restores (l : List Nat) (c : Nat) (h : c ∉ l) :
-    (registerGeneric l c).erase c = l := by
-  unfold registerGeneric
-  simp only [h, ↓reduceIte]
+    removeGeneric (registerGeneric l c) c = some l := by
+  unfold registerGeneric removeGeneric
+  simp only [List.contains_eq_mem, decide_eq_true_eq, h, ↓reduceIte, List.mem_append,
+    List.mem_singleton, or_true, Option.some.injEq]
   rw [List.erase_append_right _ h]; simp
+
+/-- a converter that is not registered cannot be removed: ValueError, nothing changes -/
+theorem remove_unregistered_rejected (l : List Nat) (c : Nat) (h : c ∉ l) :
+    removeGeneric l c = none := by
+  unfold removeGeneric
+  simp [h]
 
 /-- non-vacuity: nested blocks with an exception in the inner body -/
 example : run (.withBlock 1 (.seq .convert (.withBlock 2 (.seq .convert .raise)))) [7] = ([7], true) := by
